@@ -62,6 +62,14 @@ func (k Keeper) Withdraw(ctx sdk.Context, order ordertypes.Order) (sdk.Coin, err
 		} else if shard.Status == ordertypes.ShardWaiting {
 			// refundDec += price * shardSize * shardDuration
 			refundDec = refundDec.Add(shardIncomePerBlock.MulInt64(int64(order.Duration)))
+		} else if shard.Status == ordertypes.ShardCompleted {
+			// the shard is still in an earlier paid period: the period bought by
+			// this (renewal) order has not started, nothing of it has been earned
+			for _, renewInfo := range shard.RenewInfos {
+				if renewInfo.OrderId == order.Id {
+					refundDec = refundDec.Add(shardIncomePerBlock.MulInt64(int64(renewInfo.Duration)))
+				}
+			}
 		}
 	}
 
